@@ -7,7 +7,7 @@ import z3
 
 import ibldsp.voltage as V
 from pyvc.api import harness, bounded, property_meta, run_function
-from pyvc.core import SV, term
+from pyvc.core import SV, term, Unsupported
 from pyvc import arrays as A
 
 PROPERTY = "C16"
@@ -49,6 +49,8 @@ def h_sat(H):
             tag = "vec" if per_channel else "scalar"
             # the channel fraction of a boolean mask is either its mean over the channel axis or its count of set channels (fraction = count / nc)
             red = [r for r in it.ctx.reduce_log if r["name"] in ("mean", "count_nonzero")]
+            if len(red) != 2:
+                raise Unsupported(f"cannot identify the two channel fractions of saturation() (found {len(red)} mean / count reductions)")
             ok = len(red) == 2 and all(r["axis"] == 0 and r["in_dtype"].kind == "b" for r in red)
             it.ctx.oblige(f"flag.two_channel_fractions.{tag}", z3.BoolVal(ok), "post", "exactly two boolean masks are averaged (or counted) over the channel axis")
             if not ok:
